@@ -141,7 +141,7 @@ func c20Fifo(c *Ctx) {
 func c20Partition(c *Ctx) {
 	p := c.P
 	rule := "C20.partition"
-	c.Doc(rule, "the partition stored into the message is the result of Partitioner.Partition(msg, partitions(topic)); the mock sync producer's SendMessage reports that partition on success")
+	c.Doc(rule, "the partition stored into the message is the result of Partitioner.Partition(msg, partitions(topic))")
 	c.Floor(rule, 3)
 	choice := p.ResultOf(0, "Partitioner.Partition")
 	for _, name := range []string{"mocks.NewAsyncProducer$1", "mocks.SyncProducer.SendMessage", "mocks.SyncProducer.SendMessages"} {
@@ -160,13 +160,9 @@ func c20Partition(c *Ctx) {
 		}
 		c.Check(ok, rule, fn, "partitioner-choice", nil, "msg.Partition ← Partitioner.Partition(msg, partitions(topic))", "the message's partition is not the configured partitioner's choice over the configured partition count", nil)
 	}
-	if fn := c.NeedFn(rule, "mocks.SyncProducer.SendMessage"); fn != nil {
-		for _, r := range WholeFn(fn).Find(ReturnNilErr()) {
-			rv := RetVals(r.In.(*ssa.Return))
-			ok := len(rv) == 3 && (choice(rv[0]) || FieldLoad("ProducerMessage.Partition")(rv[0]))
-			c.Check(ok, rule, fn, "returned-partition", r.Instr(), "on success SendMessage returns the chosen partition", "on success SendMessage returns "+describe(rv[0])+" as partition instead of the partitioner's choice stored in the message", nil)
-		}
-	}
+	// Not armed: "SendMessage returns the chosen partition".  The mock returns the literal 0 on success
+	// (the choice is only stored in msg.Partition); the repository's own example test
+	// (examples/http_server) pins that behaviour, so demanding more would be a false alarm (DESIGN §7, F17).
 }
 
 func c20Offsets(c *Ctx) {
